@@ -1077,7 +1077,7 @@ func cmdCheck(args []string) int {
 	}
 	timeout := 10
 	if *tier == "thorough" {
-		timeout = 120
+		timeout = 60 // every solver runs to its own verdict on every obligation (no race): a disagreement is an engine error
 	}
 	if t := os.Getenv("GOVC_TIMEOUT"); t != "" {
 		fmt.Sscanf(t, "%d", &timeout)
